@@ -79,6 +79,37 @@ def fp_expand_len(ctx, cfg, zf, site):
     return ok, 'len_in_bytes = EXPAND_LEN in %s, DST list has exactly one element' % sorted(set(vals)) if ok else 'DST list type %s' % ty
 
 
+def _creator_suite(ctx, cfg, c, depth=0):
+    """the ciphersuite type argument of the Generators::create call behind call c: c itself, or the tail call of a local helper that is
+    generic in the suite only and hands its own suite parameter on."""
+    prog, eng = ctx.prog(cfg), ctx.eng(cfg)
+    tgt = local_target(eng, c) if c is not None else None
+    if tgt is None or depth > 3:
+        return None
+    targs = c.get('targs') or []
+    if tgt == G + 'Generators::create':
+        return targs[0] if len(targs) == 1 else None
+    hz = ctx.zone(cfg).zf(tgt)
+    l, inner = 0, None
+    for _ in range(6):
+        ds = [d for d in hz.fd.defs.get(l, []) if not d[2].get('dst', {}).get('p')]
+        if len(ds) != 1:
+            return None
+        d = ds[0]
+        if d[0] == 'call':
+            inner = d[2]
+            break
+        if d[0] == 'assign' and d[2]['rv']['k'] == 'use' and d[2]['rv']['op']['k'] in ('copy', 'move') and not d[2]['rv']['op']['pl'].get('p'):
+            l = d[2]['rv']['op']['pl']['l']
+            continue
+        return None
+    s = _creator_suite(ctx, cfg, inner, depth + 1)
+    if s is None or len(targs) != 1:
+        return None
+    # the helper has one type parameter and passes it on unchanged: the suite is whatever the caller instantiates it with
+    return targs[0] if not s.startswith(('schemes::', 'bbsplus::')) else s
+
+
 def fp_append_same_suite(ctx, cfg, zf, site):
     prog, eng = ctx.prog(cfg), ctx.eng(cfg)
     n = 0
@@ -102,9 +133,10 @@ def fp_append_same_suite(ctx, cfg, zf, site):
                             l = d[2]['rv']['op']['pl']['l']
                             continue
                         break
-                    if c is None or local_target(eng, c) != G + 'Generators::create':
+                    suite = _creator_suite(ctx, cfg, c)
+                    if suite is None:
                         return False, 'append argument at %s L%s does not come from Generators::create' % (p, t['line'])
-                    fulls.append(c.get('callee_full'))
+                    fulls.append(suite)
                 if len(set(fulls)) != 1:
                     return False, 'append of generator sets of different ciphersuites: %s' % fulls
     return n >= 1, 'all %d call sites append two Generators::create::<CS> results of the same CS (equal base point P1)' % n
